@@ -42,6 +42,10 @@ def cases(tier, seed):
             g["bf"] = 2; g["base_blocks"] = (2, 2); g["maxsz"] = 4
         if i % 5 == 4:
             g["full_refine"] = True
+        if i % 10 == 3:     # odd numbers of base cells: the domain centre is a cell centre, not a cell face
+            g.update(bf=1, base=[5, 6, 7] if i % 20 == 3 else [7, 3, 9], maxsz=3, nlevels=1 + (i // 10) % 2)
+            g.pop("base_blocks", None)
+            g.pop("full_refine", None)
         if i % 4 == 1:      # far from the origin: coordinate / cell size of 1e5 .. 1e7 (coordinates in other units)
             g["origin"] = [rng.choice([1.0e5, -3.0e5, 2.5e6]) for _ in range(3)]
         for n in range(3):      # one case per normal: the 4-level plotfiles are the long poles
